@@ -76,6 +76,10 @@ def c31Step (st : C31St) (op impl : String) : C31St × String × String :=
       if ¬ st.started ∨ st.finished ∨ nch < 1 ∨ nch > 16 ∨ nmsg < 1 ∨ nmsg > 200 ∨ fan < 1 ∨ act > 1 then (st, "bad-op", "ok")
       else c31Feed st impl false
     | _ => (st, "bad-op", "ok")
+  | ["longid", mb] =>
+    match mb.toNat? with
+    | some n => if ¬ st.started ∨ st.finished ∨ n < 1 ∨ n > 256 then (st, "bad-op", "ok") else c31Feed st impl false
+    | none => (st, "bad-op", "ok")
   | ["fin"] =>
     if ¬ st.started ∨ st.finished then (st, "bad-op", "ok") else
     let st := { st with finished := true }
